@@ -4,7 +4,7 @@ use rusty_common::*;
 use rusty_parser::{AsBareName, Expression, ExpressionPos, Operator, TypeQualifier, UnaryOperator};
 use rusty_variant::Variant;
 
-use crate::core::{LintError, LintErrorPos};
+use crate::core::{CastVariant, LintError, LintErrorPos};
 
 /// A lookup map of resolved constant values.
 pub trait ConstLookup {
@@ -72,8 +72,17 @@ where
                 }
             }
             Expression::BinaryExpression(op, left, right, _) => {
-                let v_left = self.eval_const(left)?;
-                let v_right = self.eval_const(right)?;
+                let mut v_left = self.eval_const(left)?;
+                let mut v_right = self.eval_const(right)?;
+                if matches!(*op, Operator::And | Operator::Or) {
+                    // like the interpreter, AND and OR convert their operands to INTEGER first
+                    v_left = v_left
+                        .cast(TypeQualifier::PercentInteger)
+                        .map_err(|e| e.at(left))?;
+                    v_right = v_right
+                        .cast(TypeQualifier::PercentInteger)
+                        .map_err(|e| e.at(right))?;
+                }
                 (match *op {
                     Operator::Less => v_left
                         .try_cmp(&v_right)
